@@ -416,6 +416,12 @@ def plan(tier, seed):
                                ns=[k % 4, (k + 1) % 4 + (1 if k == 3 else 0)],
                                first=first, budget=2500 if tier == 'quick'
                                else 60000))
+            # ... and on a template that was rendered to its end before
+            # (whatever a tag keeps from one rendering for the next)
+            shards.append(dict(kind='two-preemptions', src=src,
+                               ns=[k % 4, (k + 1) % 4 + (1 if k == 3 else 0)],
+                               first=first, budget=1200 if tier == 'quick'
+                               else 60000, warm=(k + 2) % 4))
     # the call path itself (DT_String.py) of a template that was rendered
     # before
     for k, src in enumerate(TWO_PREEMPTION[:2] + ['<dtml-var va>|'
